@@ -21,6 +21,9 @@ Proof.
   f_equal. rewrite map_map. apply map_ext. intros l. rewrite !map_map. reflexivity.
 Qed.
 
+Lemma existsb_ext_all {A} (f g : A -> bool) l : (forall x, f x = g x) -> existsb f l = existsb g l.
+Proof. intros H. induction l as [|x t IH]; [reflexivity|]. cbn. rewrite H, IH. reflexivity. Qed.
+
 Lemma list_nat_eqb_refl l : Compile.list_nat_eqb l l = true.
 Proof. induction l; cbn; [reflexivity | rewrite Nat.eqb_refl; exact IHl]. Qed.
 
@@ -90,14 +93,26 @@ Proof.
   apply nth_error_None in E. rewrite f0_sem_factors_length in E. lia.
 Qed.
 
-(** the factors of [act_design] are plain *)
+(** the factors of [act_design] are plain, or within-trial derived factors of the sampled crossing *)
 Lemma f0_sem_factor f fd : In f (fl_act fb) -> nth_error (s_factors S0) f = Some fd ->
-  f < n /\ f_nlevels fd = nlevels fb f /\ f_sustain fd = 1 /\ f_derived fd = None.
+  f < n /\ f_nlevels fd = nlevels fb f /\ f_sustain fd = 1 /\ (is_derived fb f = false -> f_derived fd = None).
 Proof.
   intros Hact H. destruct (f0_sem_factor_at f fd H) as (Hf & d & Hd & ->). split; [exact Hf|].
   unfold CodeSem.code_factor. cbn [f_nlevels f_sustain f_derived].
   split; [unfold nlevels; rewrite Hd; reflexivity|]. split; [apply f0_sustain_of|].
-  destruct (f0_basic fb (f0_unpack fb HF) f d Hact Hd) as [Hw _]. rewrite Hw. reflexivity.
+  intros Hnd. unfold is_derived in Hnd. rewrite Hd in Hnd. destruct (ff_window d); [discriminate | reflexivity].
+Qed.
+
+Lemma f0_sem_crossed_derived f fd : In f (fl_act fb) -> is_derived fb f = true -> nth_error (s_factors S0) f = Some fd ->
+  In f c /\ exists d w, factor_at fb f = Some d /\ ff_window d = Some w /\
+    f_derived fd = Some {| w_deps := win_deps w; w_width := 1; w_stride := 1; w_start := 0;
+                            w_table := map lv_accepts (ff_levels d) |} /\
+    (forall x, In x (win_deps w) -> In x (fl_act fb) /\ is_derived fb x = false).
+Proof.
+  intros Hact Hder H. destruct (f0_sem_factor_at f fd H) as (Hf & d & Hd & ->).
+  destruct (f0_act_kind fb HF f Hact) as [Hn | (Hc & d' & w & Hd' & Hw & Hwd & Hsd & Hst & Hdeps)]; [congruence|].
+  rewrite Hd in Hd'. inversion Hd'; subst d'. split; [exact Hc|]. exists d, w. split; [exact Hd|]. split; [exact Hw|].
+  unfold CodeSem.code_factor. cbn [f_derived]. rewrite Hw, Hwd, Hsd, Hst. split; [reflexivity | exact Hdeps].
 Qed.
 
 (** the other factors are within-trial derived factors that read factors of [act_design] *)
@@ -117,6 +132,21 @@ Proof.
   exists d, w. split; [exact Hd|]. split; [exact Ew|]. unfold CodeSem.code_factor. cbn [f_nlevels f_sustain f_derived].
   split; [unfold nlevels; rewrite Hd; reflexivity|]. split; [apply f0_sustain_of|]. rewrite Ew, Hst, Hsd, Hwd.
   split; [reflexivity|]. split; [|exact Hex]. intros x Hx. rewrite forallb_forall in Hdeps. apply (isact_In fb HF). apply Hdeps. exact Hx.
+Qed.
+
+(** the acceptance test of the reference semantics on the coded window is the predicate of the sampler *)
+Lemma sem_accepts_predicate f d deps wd sd st l args : factor_at fb f = Some d ->
+  Sem.accepts {| w_deps := deps; w_width := wd; w_stride := sd; w_start := st; w_table := map lv_accepts (ff_levels d) |} l args =
+  predicate fb f l args.
+Proof.
+  intros Hd. unfold Sem.accepts, predicate, level_accepts, levels_of. cbn [w_table]. rewrite Hd.
+  assert (Etab : nth l (map lv_accepts (ff_levels d)) [] = match nth_error (ff_levels d) l with Some lv => lv_accepts lv | None => [] end).
+  { destruct (nth_error (ff_levels d) l) as [lv|] eqn:E.
+    - rewrite (nth_indep _ [] (lv_accepts lv)) by (rewrite map_length; apply nth_error_Some; congruence).
+      rewrite (map_nth lv_accepts). rewrite (nth_error_nth _ _ lv E). reflexivity.
+    - apply nth_overflow. rewrite map_length. apply nth_error_None. exact E. }
+  rewrite Etab. clear Etab. induction (match nth_error (ff_levels d) l with Some lv => lv_accepts lv | None => [] end) as [|e es IH]; [reflexivity|].
+  cbn [existsb]. rewrite sem_args_eqb', IH. reflexivity.
 Qed.
 
 (** in a trial in which the factors an implied factor reads all carry a level, exactly one of its levels is accepted *)
@@ -176,27 +206,49 @@ Proof. unfold Compile.lookup_level, alookup. destruct (find (fun p => fst p =? f
 Lemma compile_excluded_eq di : Compile.is_excluded_combination fb di = Enum.is_excluded_combination fb di.
 Proof. reflexivity. Qed.
 
-Lemma f0_compile_not_excluded di : (forall p, In p di -> In (fst p) (fl_act fb)) ->
-  Compile.is_excluded_or_inconsistent fb di = Enum.is_excluded_combination fb di.
+Lemma entry_matches_eq e args : Compile.entry_matches e args = args_eqb (map (fun a => [Some a]) args) e.
 Proof.
-  intros Hact. unfold Compile.is_excluded_or_inconsistent. rewrite compile_excluded_eq.
-  destruct (Enum.is_excluded_combination fb di); [reflexivity|]. cbn [orb].
-  apply not_true_is_false. intros H. apply existsb_exists in H. destruct H as [p [Hp H]].
-  destruct (factor_at fb (fst p)) as [fd|] eqn:E; [|discriminate].
-  destruct (f0_basic fb (f0_unpack fb HF) (fst p) fd (Hact p Hp) E) as [Ew _]. rewrite Ew in H. discriminate.
+  revert args. induction e as [|x e' IH]; intros [|a r]; cbn [Compile.entry_matches map args_eqb]; try reflexivity.
+  - destruct x as [|[y|] [|? ?]]; reflexivity.
+  - destruct x as [|[y|] [|z zs]]; cbn [olist_eqb ocell_eqb]; try reflexivity.
+    + rewrite IH, andb_true_r, Nat.eqb_sym. reflexivity.
+    + rewrite andb_false_r. reflexivity.
 Qed.
 
-Lemma f0_compile_combos_of ci : In ci (fl_crossings fb) ->
-  Compile.trial_combinations_of fb ci = map (fun ls => combine ci ls) (allowed_combos fb ci).
+Lemma compile_level_accepts f fd l args : factor_at fb f = Some fd ->
+  Compile.level_accepts fd l args = predicate fb f l (map (fun a => [Some a]) args).
 Proof.
-  intros Hci. unfold Compile.trial_combinations_of, Compile.crossing_combos. rewrite compile_product_eq.
+  intros E. unfold Compile.level_accepts, predicate, level_accepts, levels_of. rewrite E.
+  destruct (nth_error (ff_levels fd) l) as [lv|]; [|reflexivity].
+  induction (lv_accepts lv) as [|e es IH]; [reflexivity|]. cbn [existsb]. rewrite entry_matches_eq, IH. reflexivity.
+Qed.
+
+(** the consistency test of the encoder is that of the sampler *)
+Lemma compile_inconsistent_eq di :
+  Compile.is_excluded_or_inconsistent fb di = Enum.is_excluded_or_inconsistent_combination fb di.
+Proof.
+  unfold Compile.is_excluded_or_inconsistent, Enum.is_excluded_or_inconsistent_combination. rewrite compile_excluded_eq.
+  destruct (Enum.is_excluded_combination fb di); [reflexivity|]. cbn [orb].
+  apply existsb_ext_all. intros p.
+  unfold is_derived, is_complex, window_of. destruct (factor_at fb (fst p)) as [fd|] eqn:E; [|reflexivity].
+  destruct (ff_window fd) as [w|]; [|reflexivity]. cbn [andb]. destruct (ff_complex fd); [reflexivity|]. cbn [negb].
+  f_equal. rewrite compile_product_eq.
+  rewrite (map_ext (fun d => match Compile.lookup_level di d with Some x => [x] | None => seq 0 (nlevels fb d) end)
+                   (fun df => match alookup di df with Some x => [x] | None => all_levels fb df end))
+    by (intros d; rewrite compile_lookup_eq; reflexivity).
+  apply existsb_ext_all. intros args. apply (compile_level_accepts (fst p) fd (snd p) args E).
+Qed.
+
+Lemma f0_compile_combos_of ci :
+  Compile.trial_combinations_of fb ci = map (fun ls => combine ci ls) (allowed_combos2 fb ci).
+Proof.
+  unfold Compile.trial_combinations_of, Compile.crossing_combos. rewrite compile_product_eq.
   rewrite (product_pairs ci (fun f => seq 0 (nlevels fb f))). rewrite filter_map_comm. f_equal.
-  unfold allowed_combos. apply filter_ext. intros ls. rewrite f0_compile_not_excluded; [reflexivity|].
-  intros p Hp. apply (f0_cact fb (f0_unpack fb HF) ci _ Hci). eapply in_combine_fst. exact Hp.
+  unfold allowed_combos2. apply filter_ext. intros ls. rewrite compile_inconsistent_eq. reflexivity.
 Qed.
 
 Lemma f0_compile_combos : Compile.trial_combinations_of fb c = map (fun ls => combine c ls) prod.
-Proof. apply f0_compile_combos_of. rewrite (f0_crossings fb (f0_unpack fb HF)). left. reflexivity. Qed.
+Proof. apply f0_compile_combos_of. Qed.
 
 Lemma f0_compile_level_weight f l : Compile.level_weight fb f l = level_weight_nat fb f l.
 Proof.
@@ -253,12 +305,12 @@ Qed.
 Lemma f0_code_crossing i ci : In ci (fl_crossings fb) ->
   CodeSem.code_crossing fb i ci =
   {| c_factors := ci; c_first := 0; c_chunk := nth i (fl_sizes fb) 0 * cw_of fb ci;
-     c_mult := map (fun ls => (ls, combo_weight fb (combine ci ls) * cw_of fb ci)) (allowed_combos fb ci) |}.
+     c_mult := map (fun ls => (ls, combo_weight fb (combine ci ls) * cw_of fb ci)) (allowed_combos2 fb ci) |}.
 Proof.
   intros Hci. unfold CodeSem.code_crossing. rewrite (f0_crossing_weight_of ci Hci), f0_preamble_size.
-  f_equal. rewrite f0_compile_combos_of by exact Hci. rewrite map_map. apply map_ext_in. intros ls Hls.
+  f_equal. rewrite f0_compile_combos_of. rewrite map_map. apply map_ext_in. intros ls Hls.
   rewrite f0_compile_combination_weight, f0_sustain_of. rewrite Nat.mul_1_r.
-  rewrite map_snd_combine; [reflexivity|]. unfold allowed_combos in Hls. apply filter_In in Hls. destruct Hls as [Hls _].
+  rewrite map_snd_combine; [reflexivity|]. unfold allowed_combos2 in Hls. apply filter_In in Hls. destruct Hls as [Hls _].
   rewrite (product_length_elem _ _ Hls). rewrite map_length. reflexivity.
 Qed.
 
